@@ -1050,6 +1050,8 @@ def _scaled_round(v, s):
 
 def ckks_event(raw):
     import math
+    if raw["ev"] == "ckks_mul":
+        return {"ev": "ckks_mul", "n": raw["n"], "exp": raw["exp"], "got": [[max(-(1 << 30), min(1 << 30, int(x))) for x in z] for z in raw["got"]], "tol": raw["tol"]}
     q = [int(m) for m in raw["q"]]
     Q = 1
     for m in q:
@@ -1143,23 +1145,29 @@ def check_c12(rep):
     rep.cov["transitions"] = st["generated"]
     rep.cov["traces_validated_against_impl"] = len(lines)
     rep.cov["evaluations"] = len(lines)
-    rep.cov["distinct_nontrivial"] = len({json.dumps([r["entry"], r["structure"], r["n"], r["q"], r["scale_bits"], r["inputs"], r["ints"]]) for r in raw})
-    rep.cov["refused"] = sum(1 for r in raw if r["refused"])
-    rep.cov["per_entry"] = {k: sum(1 for r in raw if r["entry"] == k) for k in sorted({r["entry"] for r in raw})}
+    enc = [r for r in raw if r["ev"] == "ckks"]
+    rep.cov["distinct_nontrivial"] = len({json.dumps([r["entry"], r["structure"], r["n"], r["q"], r["scale_bits"], r["inputs"], r["ints"]]) for r in enc})
+    rep.cov["refused"] = sum(1 for r in enc if r["refused"])
+    rep.cov["per_entry"] = {k: sum(1 for r in enc if r["entry"] == k) for k in sorted({r["entry"] for r in enc})}
+    rep.cov["embedding_multiplicative_degrees"] = sorted({r["n"] for r in raw if r["ev"] == "ckks_mul"})
     rep.cov["rule"] = ("events = one per (parameter set, level, entry point, input structure, scale): five entry points x scales 2^0..2^(log q + 3) incl. 0 and negative, crossing the 64- and 128-bit paths, "
                        "x magnitudes 0..1e18 with both signs x chains of 3..5 (quick) / 3..19 (thorough) primes at every level; TLC checks that all RNS components hold the residues of one small integer "
                        "per coefficient, that it is the rounded scaled input for the coefficient-wise entry points and the monomial-preimage vectors (N=2: exact), zero elsewhere, decode deviation within "
-                       "the allowance, scale/level recorded, and refusal of oversized magnitudes and invalid scales")
+                       "the allowance, scale/level recorded, and refusal of oversized magnitudes and invalid scales; for degrees 4..256 (thorough 2..2048) the embedding is multiplicative: "
+                       "the negacyclic product of two encodings (formed by the harness) decodes to the slot-wise product of Gaussian-integer vectors")
     for b in bad:
         r = raw[b[0] - 1]
+        if r["ev"] == "ckks_mul":
+            rep.violation({"entry": "embedding", "structure": "multiplicative", "n": r["n"]}, {"event": r})
+            continue
         import math
         sc = _f64(r["scale_bits"])
         sig = {"entry": r["entry"], "structure": r["structure"], "refused": r["refused"],
                "scale_log2": int(math.log2(sc)) if sc > 0 and math.isfinite(sc) else None,
                "negative": bool((r["ints"] and r["ints"][0] < 0) or (r["inputs"] and _f64(r["inputs"][0]) < 0))}
         rep.violation(sig, {"event": {k: v for k, v in r.items() if k != "res"}})
-    rep.samples += [{k: v for k, v in raw[i].items() if k != "res"} for i in (0, len(raw) // 2, len(raw) - 1)]
-    rep.assumptions += ["the double-precision FFT is not modelled: vector inputs are checked exactly only where the preimage is a monomial, otherwise through component consistency and decode(encode(v)) = v",
+    rep.samples += [{k: v for k, v in enc[i].items() if k != "res"} for i in (0, len(enc) // 2, len(enc) - 1)]
+    rep.assumptions += ["the double-precision FFT is not modelled: vector inputs are checked exactly only where the preimage is a monomial, otherwise through component consistency, decode(encode(v)) = v and multiplicativity of the embedding",
                         "decode is the library's own (its deviation allowance is max|v| 2^-36 + 4N/scale)", "the composed coefficient integers are hints computed in python and verified residue by residue by TLC"]
     log("[C12] %d events (%d refused), %d rejected" % (len(raw), rep.cov["refused"], len(bad)))
 
